@@ -178,6 +178,15 @@ def mir_facts(tag="default"):
     return _mir_cache[tag]
 
 
+def _specscan_stale():
+    """the binary is older than one of its own sources (an engine edit without a rebuild would export facts in the old format)"""
+    try:
+        bt = os.path.getmtime(SPECSCAN)
+        return any(os.path.getmtime(os.path.join(SPECSCAN_DIR, "src", f)) > bt for f in ("main.rs", "ast.rs", "canon.rs"))
+    except OSError:
+        return True
+
+
 def build_specscan():
     """(re)build specscan with the in-tree generator of the current tree linked in"""
     with Lock("specscan-build"):
@@ -192,7 +201,7 @@ def ast_facts():
     if not os.path.exists(out):
         with Lock("ast"):
             if not os.path.exists(out):
-                if not os.path.exists(SPECSCAN):
+                if not os.path.exists(SPECSCAN) or _specscan_stale():
                     build_specscan()
                 files = []
                 for sub in ("a2lfile/src", "a2lmacros/src"):
